@@ -119,3 +119,44 @@ Definition row_ok (r : rrow) : bool :=
   let '(name, (sk, (tags, (fields, (opts, t))))) := r in
   (len name <? 256) && (len sk <? M32) && (len tags <? M32) && forallb tag_ok tags &&
   (len fields <? M32) && forallb field_ok fields && (len opts <? M32) && forallb opt_ok opts && (0 <=? t) && (t <? M64).
+
+(* ================= record.Marshal / record.Unmarshal (lib/record/record_codec.go, lib/codec) =================
+   u32 field count, per field u32 size + (u16-len name, zig-zag i64 type); u32 column count, per column u32 size +
+   (zig-zag i64 Len, NilCount, BitMapOffset; u32-len Val; u32-len Bitmap; u32 count + little-endian u32 offsets). *)
+Definition get_le (n : nat) : dec_t Z := fun bs =>
+  if (length bs <? n)%nat then None else Some (unle (firstn n bs), skipn n bs).
+
+(* a value encoded on its own and wrapped with its u32 size; the wrapped decoder only sees the sized slice *)
+Definition put_sized {A} (e : A -> list Z) (a : A) : list Z := put_bytes 4 (e a).
+Definition get_sized {A} (d : dec_t A) : dec_t A := fun bs =>
+  match get_bytes 4 bs with
+  | Some (sub, r) => match d sub with Some (a, _) => Some (a, r) | None => None end
+  | None => None
+  end.
+
+Definition e_zint (v : Z) : list Z := be 8 (zz v).                 (* codec.AppendInt: zig-zag int64, big endian *)
+Definition d_zint : dec_t Z := fun bs => omap unzz (get_be 8 bs).
+
+Definition rec_field := (list Z * Z)%type.                                   (* name, type *)
+Definition rec_col := (Z * (Z * (Z * (list Z * (list Z * list Z)))))%type.   (* Len, NilCount, BitMapOffset, Val, Bitmap, Offset *)
+Definition e_rec_field : rec_field -> list Z := e_pair (put_bytes 2) e_zint.
+Definition d_rec_field : dec_t rec_field := d_pair (get_bytes 2) d_zint.
+Definition e_rec_col : rec_col -> list Z :=
+  e_pair e_zint (e_pair e_zint (e_pair e_zint (e_pair (put_bytes 4) (e_pair (put_bytes 4) (put_list 4 (le 4)))))).
+Definition d_rec_col : dec_t rec_col :=
+  d_pair d_zint (d_pair d_zint (d_pair d_zint (d_pair (get_bytes 4) (d_pair (get_bytes 4) (get_list 4 (get_le 4)))))).
+
+Definition rrecord := (list rec_field * list rec_col)%type.
+Definition e_record : rrecord -> list Z :=
+  e_pair (put_list 4 (put_sized e_rec_field)) (put_list 4 (put_sized e_rec_col)).
+Definition d_record : dec_t rrecord :=
+  d_pair (get_list 4 (get_sized d_rec_field)) (get_list 4 (get_sized d_rec_col)).
+
+Definition rec_field_ok (f : rec_field) : bool := (len (fst f) <? 65536) && (0 <=? snd f) && (snd f <? M64).
+Definition rec_col_ok (c : rec_col) : bool :=
+  let '(l, (n, (o, (val, (bm, offs))))) := c in
+  (0 <=? l) && (l <? M64) && (0 <=? n) && (n <? M64) && (0 <=? o) && (o <? M64) &&
+  (len val <? M32) && (len bm <? M32) && (len offs <? M32) && forallb (fun x => (0 <=? x) && (x <? M32)) offs.
+Definition record_ok (r : rrecord) : bool :=
+  (len (fst r) <? M32) && forallb rec_field_ok (fst r) && (len (snd r) <? M32) && forallb rec_col_ok (snd r) &&
+  forallb (fun c => len (e_rec_col c) <? M32) (snd r).
